@@ -1,1 +1,22 @@
-//! Program-level generators and helpers (own .did AST + printer); see gen::prog.
+//! Candid programs as an AST of our own, with our own printer, a generator of programs that are
+//! well-formed by construction, their meaning as a model type graph, and single-fault mutants.
+//! Only `bridge` (and the self-tests) call candid.
+pub mod ast;
+pub mod bridge;
+pub mod features;
+pub mod gen;
+pub mod model;
+pub mod mutants;
+pub mod print;
+#[cfg(test)]
+mod tests;
+
+pub use ast::*;
+pub use gen::{
+    doc_as_seen, gen_actor, gen_defs, gen_init_args, gen_prog, with_synthetic_service, DocKind, Gen, Kind, ProgCfg,
+};
+pub use model::{has_func_method_cycle, init_args_model, to_model, try_to_model, well_formed, ProgModel};
+pub use mutants::{colliding_pairs, gen_lookalike, gen_mutant, FaultKind, LookKind, Mutant};
+pub use print::{plain, plain_ty, print_init_args, print_prog, print_ty, PrintCfg};
+pub use bridge::{actor_parts, diff_model, parse_check, stable_location, CheckErr};
+pub use features::{features, recursion, shape_hash};
